@@ -460,6 +460,51 @@ def opaque_cases():
     return cases
 
 
+def ssh_name_list_cases():
+    """every member of every SSH algorithm-name table inside its own name-list class, alone and next to another name:
+    (class name, [names])"""
+    from cryptoparser.ssh import subprotocol as sp
+    out = []
+    for cls_name in ('SshKexAlgorithmVector', 'SshHostKeyAlgorithmVector', 'SshEncryptionAlgorithmVector', 'SshMacAlgorithmVector',
+                     'SshCompressionAlgorithmVector'):
+        cls = getattr(sp, cls_name, None)
+        if cls is None:
+            continue
+        members = list(cls.get_param().item_class)
+        for i, m in enumerate(members):
+            other = members[(i + 1) % len(members)]
+            out.append({'kind': 'sshnames', 'cls': cls_name, 'names': [m.value.code]})
+            out.append({'kind': 'sshnames', 'cls': cls_name, 'names': [other.value.code, m.value.code, 'unknown-name@example.com']})
+    return out
+
+
+def ssh_name_list_props(case):
+    import struct
+    from cryptoparser.ssh import subprotocol as sp
+    cls = getattr(sp, case['cls'])
+    enum_cls = cls.get_param().item_class
+    body = ','.join(case['names']).encode('ascii')
+    wire = struct.pack('>I', len(body)) + body
+    try:
+        items = list(cls.parse_exact_size(wire))
+    except Exception as exc:  # pylint: disable=broad-except
+        return [('names-rejected:' + case['cls'], '{}: the name-list {!r} of known names is rejected: {}'.format(
+            case['cls'], case['names'], core.err_line(exc)))]
+    got = [i.value.code if isinstance(i, enum.Enum) else str(i) for i in items]
+    if got != case['names']:
+        return [('names-redirected:' + case['cls'], '{}: {!r} decodes as {!r}'.format(case['cls'], case['names'], got))]
+    known = {m.value.code: m for m in enum_cls}
+    for name, item in zip(case['names'], items):
+        if name in known and item is not known[name]:
+            return [('names-not-member:' + case['cls'], '{}: known name {!r} decodes as {!r}'.format(case['cls'], name, item))]
+    try:
+        again = bytes(cls(items).compose())
+    except Exception as exc:  # pylint: disable=broad-except
+        return [('names-recompose:' + case['cls'], '{}: {!r} cannot be composed again: {}'.format(case['cls'], case['names'], core.err_line(exc)))]
+    if again != wire:
+        return [('names-recompose:' + case['cls'], '{}: {!r} re-encodes to {}'.format(case['cls'], case['names'], hx(again)))]
+    return []
+
 def position_cases(run, tier):
     """every member of an enumeration at every single-field position of the generated message classes: the object
     is re-built with that member (attr.evolve), composed and parsed; the field must come back as the same member"""
@@ -568,6 +613,12 @@ def run(run, driver_ok=True, deep=False):
         for key, message in vector_case_props(case):
             run.finding(key, message, case)
     position_cases(run, tier)
+    for case in ssh_name_list_cases():
+        run.evaluations += 1
+        run.count('ssh_name_lists', case['cls'])
+        run.note_nontrivial(('sshnames', case['cls'], tuple(case['names'])))
+        for key, message in ssh_name_list_props(case):
+            run.finding(key, message, case)
     for case in opaque_cases():
         run.evaluations += 1
         run.count('opaque_enums', case['cls'])
@@ -615,6 +666,8 @@ def replay(case):
         return vector_case_props(case)
     if case.get('kind') == 'openum':
         return opaque_case_props(case)
+    if case.get('kind') == 'sshnames':
+        return ssh_name_list_props(case)
     if case.get('kind') == 'pos':
         return position_replay(case)
     return Dispatch.prop(case)
